@@ -4,7 +4,8 @@
 // fragments from a list that triggers each condensing pass, the final tokens
 //   (a) tile the text exactly (no character lost or duplicated),
 //   (b) quote tokens point at an existing twin quote that points back,
-//   (c) a number token with a suffix ends in exactly those two suffix letters (any case),
+//   (c) a number token's text denotes its value (decimal or 0x-hex) and, with a suffix, ends in exactly those two
+//       suffix letters (any case),
 //   (d) space tokens cover only blanks/tabs, newline / paragraph-break tokens only line feeds,
 //   (e) word tokens contain no whitespace.
 use crate::Punctuation;
@@ -34,6 +35,16 @@ fn rac_check_doc(text: &[char]) -> Result<usize, String> {
                 }
             }
             TokenKind::Number(n) => {
+                // the token's text denotes its numeric value
+                let digits: String = content[..content.len() - if n.suffix.is_some() { 2 } else { 0 }].iter().collect();
+                let denoted: Option<f64> = if n.radix == 16 {
+                    digits.strip_prefix("0x").and_then(|h| u64::from_str_radix(h, 16).ok()).map(|v| v as f64)
+                } else {
+                    digits.parse::<f64>().ok()
+                };
+                if denoted != Some(n.value.0) {
+                    return Err(format!("number token #{} has text {:?} (radix {}) but value {}", i, content.iter().collect::<String>(), n.radix, n.value.0));
+                }
                 if let Some(s) = n.suffix {
                     let want = s.to_chars();
                     let l = content.len();
@@ -69,7 +80,7 @@ fn rac_check_doc(text: &[char]) -> Result<usize, String> {
 #[test]
 fn rac_document_tiles() {
     let alpha = ['a', 'i', 'e', '.', ' ', '\n', '\t', '1', '2', 's', 't', 'n', 'd', '"', '\''];
-    let frags = ["i.e.", "e.g.", "N.S.A.", "1st", "22ND", "3rd ", " ", "\"", "etc.", "...", "isn't", "\n\n", "a", "B.", " vs. ", "1980s", "x"];
+    let frags = ["i.e.", "e.g.", "N.S.A.", "1st", "22ND", "3rd ", " ", "\"", "etc.", "...", "isn't", "\n\n", "a", "B.", " vs. ", "1980s", "x", "0xFF", "0x10000000000000001 ", "3.5", "7"];
     let mut texts: Vec<Vec<char>> = vec![vec![]];
     let mut frontier: Vec<Vec<char>> = vec![vec![]];
     for _ in 0..4 {
@@ -117,7 +128,7 @@ fn rac_document_tiles() {
             }
         }
     }
-    println!("RAC-OK document_tiles cases={} nontrivial={} bound=len<=4-over-15-symbols+<=4-of-17-fragments", cases, nontrivial);
+    println!("RAC-OK document_tiles cases={} nontrivial={} bound=len<=4-over-15-symbols+<=4-of-21-fragments", cases, nontrivial);
 }
 
 // Runtime contract check of Document::condense_indices, whose contract the Verus unit `document`
